@@ -339,8 +339,14 @@ class TemplateManipulator:
 
 		schema_begin_path = DSN.left(schema_path, 2)
 		schema_elems = schema_props[schema_path]
+		# 2階層目以降(=同じ引数内のテンプレート引数の位置)
+		schema_inner_elems = DSN.elements(schema_elems)[1:]
 		for actual_path, actual_elems in actual_props.items():
 			if not actual_path.startswith(schema_begin_path):
+				continue
+
+			# 同じ引数内の別のテンプレート引数は対象外 (e.g. dict<K, V>のVに対するK)
+			if DSN.elements(actual_elems)[1:len(schema_inner_elems) + 1] != schema_inner_elems:
 				continue
 
 			diff = DSN.elem_counts(actual_elems) - DSN.elem_counts(schema_elems)
